@@ -390,19 +390,51 @@ def mpu_task_hygiene(prog: Program) -> List[Instance]:
     consult the writer's max_part. (3) the key of the finalising task must depend on the data stream."""
     out: List[Instance] = []
     MUT = {"append", "maybe_write", "flush_rhs", "flush"}
-    for q in ("cog._mpu:_mpu_append_chunks_op", "cog._mpu:MPUChunk.merge"):
-        f = prog.func(q)
-        org = Origins(f)
-        params = set(f.param_names())
+    FRESH = {"_clone", "clone", "copy", "deepcopy", "MPUChunk", "replace", "merge"}
+    from ..cfg import ReachingDefs
+
+    # every function dask runs as a task (the module-level *_op functions) and merge(), which they call on inputs
+    tasks = [f for f in prog.all_functions({"cog._mpu"}) if f.cls is None and f.parent is None and f.name.endswith("_op")]
+    mg = prog.maybe_func("cog._mpu:MPUChunk.merge")
+    if mg is not None:
+        tasks.append(mg)
+    for f in tasks:
+        rd = ReachingDefs(f.node)
         for c in (n for n in walk_own(f.node) if isinstance(n, ast.Call) and isinstance(n.func, ast.Attribute) and n.func.attr in MUT and isinstance(n.func.value, ast.Name)):
             recv = c.func.value.id  # type: ignore[union-attr]
-            defs = [v for _k, v in org.defs.get(recv, [])]
-            fresh = any(isinstance(v, ast.Call) and (call_name(v) in ("_clone", "clone", "copy", "deepcopy", "MPUChunk", "replace")) for v in defs)
-            from_input = recv in params or any(org.deps(v) & params for v in defs if not isinstance(v, ast.Call)) or any(isinstance(v, ast.Name) for v in defs)
-            bad = from_input and not fresh
+            defs = rd.reaching(enclosing_stmt(c), recv)
+            # on EVERY path the receiver was bound to a copy / a freshly built chunk (merge() and the constructor build
+            # new objects); a parameter, an element unpacked from a parameter or an alias of one is an input
+            stale = [d for d in defs if not (d[3] == "assign" and isinstance(d[2], ast.Call) and call_name(d[2]) in FRESH)]
+            bad = bool(stale) or not defs
             out.append(Instance("R-MPU", f"{f.qual}#no-input-mutation:{recv}.{c.func.attr}", BAD if bad else OK,
-                                f"`{short(c, 50)}` mutates `{recv}`, which is (an element of) the task's input: the object lives in the dask graph, a second compute() or a retry starts from the dirty state and writes every chunk twice" if bad else
-                                f"`{recv}` is a copy / fresh object when `{c.func.attr}` is called on it", f.where(c)))
+                                f"`{short(c, 50)}` mutates `{recv}`, which on some path is still (an element of) the task's input ({'; '.join(sorted({short(d[1], 40) if d[1] is not None and not isinstance(d[1], ast.arg) else 'parameter' for d in stale}))}): the object lives in the dask graph or on another worker, a second compute() or a retry starts from the dirty state and writes chunks / footer twice" if bad else
+                                f"`{recv}` is a copy / freshly built chunk on every path when `{c.func.attr}` is called on it", f.where(c)))
+    # the copy itself must not share mutable state with the original
+    ci = prog.cls("cog._mpu:MPUChunk")
+    cl = ci.methods.get("_clone") or ci.methods.get("clone")
+    if cl is not None:
+        init = ci.methods.get("__init__")
+        # fields that hold a mutable container: assigned in __init__ from a list / bytearray literal or constructor
+        mutable: Set[str] = set()
+        if init is not None:
+            for n in walk_own(init.node):
+                tv = [(t, n.value) for t in n.targets] if isinstance(n, ast.Assign) else [(n.target, n.value)] if isinstance(n, ast.AnnAssign) and n.value is not None else []
+                for t, v in tv:
+                    if isinstance(t, ast.Attribute) and isinstance(t.value, ast.Name) and t.value.id == (init.self_name or "self"):
+                        if any(isinstance(x, (ast.List, ast.Dict, ast.Set)) or (isinstance(x, ast.Call) and call_name(x) in ("bytearray", "list", "dict", "set")) for x in ast.walk(v)):
+                            mutable.add(t.attr)
+        me = cl.self_name or "self"
+        shared = []
+        for r in (x for x in walk_own(cl.node) if isinstance(x, ast.Return) and isinstance(x.value, ast.Call)):
+            for a in list(r.value.args) + [k.value for k in r.value.keywords]:
+                leaves = [a.body, a.orelse] if isinstance(a, ast.IfExp) else [a]
+                for e in leaves:
+                    if isinstance(e, ast.Attribute) and isinstance(e.value, ast.Name) and e.value.id == me and e.attr in mutable:
+                        shared.append(e)
+        out.append(Instance("R-MPU", f"{cl.qual}#copies-mutable-fields", BAD if shared else OK,
+                            f"the copy is built with `{short(shared[0])}` as it is: the working copy a task makes shares that container with the object in the graph, receipts / bytes appended during one run are still there on the next" if shared else
+                            f"every mutable field ({sorted(mutable)}) is copied into the clone", cl.where(shared[0]) if shared else cl.where()))
     w = prog.func("cog._mpu:mpu_write")
     reads_max = any(isinstance(n, ast.Attribute) and n.attr == "max_part" for n in walk_own(w.node))
     out.append(Instance("R-MPU", f"{w.qual}#part-range", OK if reads_max else BAD,
